@@ -1,10 +1,11 @@
 #!/bin/bash
 # Builds the orchestrator (which links no thriftrw code under test). Offline.
 set -e
-cd /verif
-. ./env.sh
+HERE="$(cd "$(dirname "${BASH_SOURCE[0]}")" && pwd)"
+cd "$HERE"
+export GOFLAGS=-mod=mod GOPROXY=off GOSUMDB=off GOTOOLCHAIN=local
 mkdir -p bin
 cd harness
 cp /repo/go.sum go.sum
-go build -o /verif/bin/vcheck ./cmd/vcheck
+go build -o "$HERE/bin/vcheck" ./cmd/vcheck
 echo setup ok
